@@ -339,6 +339,13 @@ func GenSched(r *Rng, seed uint64, estSteps int, stallSites []int) SchedPlan {
 			if r.Bool(0.3) {
 				// a node stalled for a long time (whole phases pass meanwhile)
 				sp.StallLen = r.Range(200, 3000)
+			} else if r.Bool(0.5) {
+				// two tasks stalled inside their windows at the same time (three-step races:
+				// one parked before its CAS, the other between its read and its CAS)
+				sp.Stall2Site = stallSites[r.Intn(len(stallSites))]
+				sp.Stall2Nth = r.Range(1, 12)
+				sp.Stall2Len = r.Range(2, 40)
+				sp.StallNth = r.Range(1, 12)
 			}
 		}
 	}
